@@ -39,6 +39,29 @@ Definition check_settled (b : bp) (fuel : nat) (outs : list (obs * term)) : opti
       if forallb (fun ot => term_eqb (observe talg b st (fst ot)) (snd ot)) outs then Some k else None
   end.
 
+(* circuit conditions of passive entities (lamps, inserters, ...): entity number i of the
+   blueprint must be enabled by exactly the truth value of the given term *)
+Definition dummy_ent : ent := {| e_kind := KPole; e_ir := 0; e_ig := 0; e_or := []; e_og := [] |}.
+
+Definition pcond {V} (A : alg V) (b : bp) (st : state V) (i : nat) : option V :=
+  passive_cond A b st (nth i (b_ents b) dummy_ent).
+
+Definition pc_ok (b : bp) (st : state term) (it : nat * term) : bool :=
+  match pcond talg b st (fst it) with
+  | Some t => term_eqb t (snd it)
+  | None => false
+  end.
+
+Definition check_settled2 (b : bp) (fuel : nat) (outs : list (obs * term)) (pcs : list (nat * term))
+  : option nat :=
+  match find_fix b fuel (init b) O with
+  | None => None
+  | Some (k, st) =>
+      if forallb (fun ot => term_eqb (observe talg b st (fst ot)) (snd ot)) outs
+         && forallb (pc_ok b st) pcs
+      then Some k else None
+  end.
+
 (* ---------------------------------------------------------------- Z-level facts *)
 Section Z.
 Variable env : var -> Z.
@@ -211,6 +234,30 @@ Proof.
   rewrite (rd_hom talg ZA ev (talg_hom env)), !(netval_hom (V:=term) (W:=Z) ev),
           (run_hom talg ZA ev (talg_hom env)).
   reflexivity.
+Qed.
+
+Theorem check_settled2_sound b fuel outs pcs k :
+  check_settled2 b fuel outs pcs = Some k ->
+  forall t, (k < t)%nat ->
+  (forall o tm, In (o, tm) outs -> observe ZA b (run ZA b t) o = ev tm) /\
+  (forall i tm, In (i, tm) pcs -> pcond ZA b (run ZA b t) i = Some (ev tm)).
+Proof.
+  unfold check_settled2. destruct (find_fix b fuel (init b) O) as [[k' st]|] eqn:F; [|discriminate].
+  destruct (forallb _ outs && forallb _ pcs) eqn:Q; [|discriminate]. intros E; inversion E; subst k'. clear E.
+  apply andb_true_iff in Q as [Q1 Q2].
+  change (init b) with (run talg b O) in F.
+  apply find_fix_spec in F as [-> F].
+  apply state_eqb_sound in F. rewrite !(run_hom talg ZA ev (talg_hom env)) in F.
+  intros t Ht. rewrite (settle b k F t Ht). split.
+  - intros o tm I. rewrite forallb_forall in Q1. specialize (Q1 _ I). cbn [fst snd] in Q1.
+    apply term_eqb_eq in Q1. rewrite <- Q1. unfold observe.
+    rewrite (rd_hom talg ZA ev (talg_hom env)), !(netval_hom (V:=term) (W:=Z) ev),
+            (run_hom talg ZA ev (talg_hom env)). reflexivity.
+  - intros i tm I. rewrite forallb_forall in Q2. specialize (Q2 _ I). unfold pc_ok in Q2. cbn [fst snd] in Q2.
+    destruct (pcond talg b (run talg b (S k)) i) as [t'|] eqn:P; [|discriminate].
+    apply term_eqb_eq in Q2. subst t'. unfold pcond in *.
+    rewrite <- (run_hom talg ZA ev (talg_hom env)), <- (passive_cond_hom talg ZA ev (talg_hom env)), P.
+    reflexivity.
 Qed.
 
 End Z.
